@@ -194,6 +194,38 @@ def counter_paths(b, h, blocks, nb, incs):
     return counts
 
 
+THINNING = ("skip", "rev", "step_by", "filter", "skip_while", "take_while", "zip", "chain", "filter_map", "flat_map", "peekable",
+            "map_while", "flatten", "cycle", "scan")
+
+
+def enumerate_position(b, key, vroot):
+    """None: the key is not `(it.next() as Some).0.0` of an Enumerate; "exact": the Enumerate counts the elements of the
+    vector `vroot` itself; otherwise the adaptor that sits between the vector and enumerate()"""
+    k = b.expand_vars(strip_sites(key))
+    if not (k[0] == "field" and k[1] == 0 and k[2][0] == "field" and k[2][1] == 0):
+        return None
+    d = k[2][2]
+    if not (d[0] == "downcast" and d[1] == "Some"):
+        return None
+    c = d[2]
+    if not (c[0] == "call" and last_seg(c[1]) == "next" and c[2]):
+        return None
+    it = c[2][0]
+    en = flow.backward(b, it, lambda z: z[0] == "call" and last_seg(z[1]) == "enumerate", through_containers=False)
+    if en is None:
+        return None
+    inner = en[2][0] if en[2] else None
+    if inner is None:
+        return None
+    thin = flow.backward(b, inner, lambda z: z[0] == "call" and last_seg(z[1]) in THINNING and "Iterator" in z[1],
+                         through_containers=False)
+    if thin is not None:
+        return last_seg(thin[1]) + "()"
+    if flow.backward(b, inner, lambda z: z[0] in ("var", "param") and z[1] == vroot, through_containers=False) is None:
+        return "foreign"
+    return "exact"
+
+
 def rule(ctx, crate, rule_id, paths):
     n = 0
     for p in paths:
@@ -224,6 +256,28 @@ def rule(ctx, crate, rule_id, paths):
                    detail=None if ok else "an iteration can reach the next token with the counter advanced %s times: every "
                    "position recorded afterwards denotes a neighbouring token" %
                    ("/".join(str(c) if c < 2 else "2+" for c in sorted(counts)) if counts else "?"))
+        # positions taken from enumerate(): it must count the elements of the token vector itself, not of a filtered /
+        # skipped / reversed view of it
+        for l, loc in enumerate(b.locals):
+            if not any(k in loc["ty"] for k in ("Vec<(usize", "HashMap<usize", "BTreeMap<usize", "VecDeque<(usize")):
+                continue
+            k_ = 0
+            for bb in _fill_sites(b, l):
+                a = b.call_args(bb)
+                if len(a) < 2:
+                    continue
+                v = strip_sites(a[1])
+                key = v[2][0] if v[0] == "agg" and v[1] == "tuple" and v[2] else v
+                kind = enumerate_position(b, key, tok)
+                if kind is None:
+                    continue
+                ctx.ob(rule_id, p, "the position recorded in `%s` is enumerate()'s count over the token vector itself" %
+                       (b.names.get(l) or "_%d" % l), kind == "exact",
+                       key="%s|%s|enumerate-position|%s#%d" % (rule_id, p, b.names.get(l) or "_%d" % l, k_), where=b.loc(bb),
+                       crate=crate.kind,
+                       detail=None if kind == "exact" else "enumerate() runs over a %s view of the tokens: the recorded number is not "
+                       "the token's index, the replacement lands on a neighbouring word" % kind)
+                k_ += 1
         if not viol:
             ctx.ob(rule_id, p, "recorded positions are used on the vector as scanned (%d length-changing op(s), %d indexed "
                                "use(s))" % (nc, nu), True, crate=crate.kind, nontrivial=bool(nc or nu))
